@@ -53,6 +53,9 @@ structure St where
   tH : Tree
   tL : Tree
   log : List Entry
+  other : Rev := null       -- tip of an independent branch `O` (own repository and tree)
+  tO : Tree := ⟨null, []⟩
+  third : Rev := null       -- tip of a third branch `P`, the target of `push`
   deriving DecidableEq, Repr
 
 def init : St :=
@@ -104,6 +107,11 @@ inductive Op where
   | pull          -- in H: `wt.pull(master)`
   | bind
   | unbind
+  | commitO (r : Rev)                 -- commit in the other branch's own tree
+  | syncO                             -- in O: `wt.pull(master, overwrite=True)`
+  | pullOther (w : Who) (stop : Option Rev) (overwrite localOnly : Bool)
+                                      -- in w's tree: `wt.pull(O, stop_revision=stop, overwrite=…, local=…)`
+  | push (w : Who)                    -- `branch_of(w).push(P)`
   deriving DecidableEq, Repr
 
 inductive Out where
@@ -178,6 +186,58 @@ def pullH (s : St) : St × Out :=
     ({ s with loc := s.master, log := ⟨.loc, s.master, .pull⟩ :: s.log,
               tH := ⟨s.master, s.tH.merges⟩ }, .ok)
 
+/-- `GenericInterBranch._update_revisions(stop_revision, overwrite)`: the new
+tip of the target, `none` = `DivergedBranches` -/
+def updateRevisions (g : List (Rev × List Rev)) (target source : Rev) (stop : Option Rev) (ow : Bool) :
+    Option Rev :=
+  let st := stop.getD source
+  if stop.isNone && source == null then some target          -- nothing to pull from an empty branch
+  else if ow then some st
+  else if isAncestor g st target then some target            -- the target already has it
+  else if !isAncestor g target st then none
+  else some st
+
+/-- tree part of `WorkingTree.pull`: rebased on the new tip when the tip moved -/
+def pulledTree (t : Tree) (old new : Rev) : Tree := if new != old then ⟨new, t.merges⟩ else t
+
+def logIf (c : Bool) (e : Entry) (l : List Entry) : List Entry := if c then e :: l else l
+
+/-- `GenericInterBranch.pull` with a source that is not the master, in the
+heavyweight checkout: when bound and not `local`, the **master is pulled first,
+with the same stop revision**, then the local branch; if the local pull then
+finds the branches diverged the master has already moved -/
+def pullOtherH (s : St) (stop : Option Rev) (ow localOnly : Bool) : St × Out :=
+  if localOnly && !s.bound then (s, .localRequiresBound)
+  else
+    let viaMaster := s.bound && !localOnly
+    match (if viaMaster then updateRevisions s.graph s.master s.other stop ow else some s.master) with
+    | none => (s, .diverged)
+    | some m' =>
+      let s1 := { s with master := m', log := logIf (m' != s.master) ⟨.master, m', .pull⟩ s.log }
+      match updateRevisions s.graph s.loc s.other stop ow with
+      | none => (s1, .diverged)
+      | some l' =>
+        ({ s1 with loc := l', log := logIf (l' != s.loc) ⟨.loc, l', .pull⟩ s1.log,
+                   tH := pulledTree s.tH s.loc l' }, .ok)
+
+/-- the same in the master's tree or the lightweight checkout (the branch is the
+master, which is not bound) -/
+def pullOtherMaster (s : St) (w : Who) (stop : Option Rev) (ow localOnly : Bool) : St × Out :=
+  if localOnly then (s, .localRequiresBound)
+  else
+    match updateRevisions s.graph s.master s.other stop ow with
+    | none => (s, .diverged)
+    | some m' =>
+      let s1 := { s with master := m', log := logIf (m' != s.master) ⟨.master, m', .pull⟩ s.log }
+      (if w == .M then { s1 with tM := pulledTree s.tM s.master m' }
+       else { s1 with tL := pulledTree s.tL s.master m' }, .ok)
+
+/-- `source.push(P)` into an unbound third branch -/
+def pushTo (s : St) (src : Rev) : St × Out :=
+  match updateRevisions s.graph s.third src none false with
+  | none => (s, .diverged)
+  | some p' => ({ s with third := p' }, .ok)
+
 def step (s : St) : Op → St × Out
   | .commit .H r l => commitH s r l
   | .commit w r l => commitMaster s w r l
@@ -187,6 +247,14 @@ def step (s : St) : Op → St × Out
   | .pull => pullH s
   | .bind => ({ s with bound := true }, .ok)
   | .unbind => ({ s with bound := false }, .ok)
+  | .commitO r => ({ s with graph := addRev s.graph r s.tO.parents, other := r, tO := ⟨r, []⟩ }, .ok)
+  | .syncO =>
+    let o' := if s.master == null then s.other else s.master
+    ({ s with other := o', tO := pulledTree s.tO s.other o' }, .ok)
+  | .pullOther .H stop ow l => pullOtherH s stop ow l
+  | .pullOther w stop ow l => pullOtherMaster s w stop ow l
+  | .push .H => pushTo s s.loc
+  | .push _ => pushTo s s.master
 
 def run (s : St) : List Op → St
   | [] => s
